@@ -27,11 +27,11 @@ ghost var kid(p addr, i int) addr     // i-th child of p
 macro W1() = forall p addr {klen(p)} :: klen(p) >= 0 && (p != nil ==> cnt(p) == klen(p))
 macro W2() = forall p addr, i int {kid(p, i)} :: (0 <= i && i < klen(p)) ==> (kid(p, i) != nil && par(kid(p, i)) == p && kidx(kid(p, i)) == i)
 macro W3() = forall v addr {kidx(v)} {par(v)} :: (v != nil && par(v) != nil) ==> (0 <= kidx(v) && kidx(v) < klen(par(v)) && kid(par(v), kidx(v)) == v)
-macro W4() = forall p addr, i int {kid(p, i)} :: (0 <= i && i < klen(p)) ==>
+macro W4() = forall p addr, i int {nxt(kid(p, i))} {prv(kid(p, i))} :: (0 <= i && i < klen(p)) ==>
    (nxt(kid(p, i)) == (i + 1 < klen(p) ? kid(p, i + 1) : nil) && prv(kid(p, i)) == (i > 0 ? kid(p, i - 1) : nil))
 macro W5() = forall p addr {klen(p)} :: p != nil ==> (fst(p) == (klen(p) > 0 ? kid(p, 0) : nil) && lst(p) == (klen(p) > 0 ? kid(p, klen(p) - 1) : nil))
 macro W6() = forall v addr {par(v)} :: (v != nil && par(v) == nil) ==> (nxt(v) == nil && prv(v) == nil)
-macro W0() = klen(nil) == 0
+macro W0() = klen(nil) == 0 && par(nil) == nil && nxt(nil) == nil && prv(nil) == nil
 macro WF() = W0() && W1() && W2() && W3() && W4() && W5() && W6()
 
 // ---- accessors: interface contracts (all implementations are BaseNode's promoted methods) ----
@@ -178,7 +178,7 @@ macro isChild(v1, self)         = (v1 != nil && par(v1) == self)
 
 func (*BaseNode).InsertBefore
   uses nodeModel
-  requires WF() && self != nil && base(self) == n && insertee != nil && insertee != self && insertee != v1
+  requires WF() && self != nil && base(self) == n && insertee != nil && insertee != self && (insertee != v1 || par(v1) != self)
   hint klen(self) >= 0 && (isChild(v1, self) ==> (0 <= kidx(v1) && kidx(v1) < klen(self) && kid(self, kidx(v1)) == v1 && (kidx(v1) > 0 ==> kid(self, kidx(v1) - 1) != nil)))
   updates klen(p) = (isChild(v1, self) ? ibLen(p, self, insertee) : apLen(p, self, insertee))
   updates kid(p, i) = (isChild(v1, self) ? ibKid(p, i, self, v1, insertee) : apKid(p, i, self, insertee))
@@ -200,4 +200,58 @@ func (*BaseNode).InsertBefore
   modifies n.childCount, n.firstChild, n.lastChild, bn(insertee).parent, bn(insertee).next, bn(insertee).prev, bn(lst(self)).next,
      bn(par(insertee)).childCount, bn(par(insertee)).firstChild, bn(par(insertee)).lastChild, bn(prv(insertee)).next, bn(nxt(insertee)).prev,
      bn(v1).prev, bn(prv(v1)).next
+
+// InsertAfter(self, v1, ins): if v1 is a child of self, ins ends up immediately after it; otherwise ins is appended.
+macro iaNoop(self, v1, ins) = (par(v1) == self && nxt(v1) == ins)
+func (*BaseNode).InsertAfter
+  uses nodeModel
+  requires WF() && self != nil && base(self) == n && v1 != nil && insertee != nil && insertee != self && insertee != v1
+  updates klen(p) = (iaNoop(self, v1, insertee) ? klen(p) : (isChild(nxt(v1), self) ? ibLen(p, self, insertee) : apLen(p, self, insertee)))
+  updates kid(p, i) = (iaNoop(self, v1, insertee) ? kid(p, i) : (isChild(nxt(v1), self) ? ibKid(p, i, self, nxt(v1), insertee) : apKid(p, i, self, insertee)))
+  updates kidx(w) = (iaNoop(self, v1, insertee) ? kidx(w) : (isChild(nxt(v1), self) ? ibIdx(w, self, nxt(v1), insertee) : apIdx(w, self, insertee)))
+  bridge klen(p) = klen(p)
+  bridge kid(p, i) = kid(p, i)
+  bridge kidx(w) = kidx(w)
+  ensures WF()
+  ensures [parent] par(insertee) == self
+  ensures [after] old(par(v1)) == self ==> (nxt(v1) == insertee && prv(insertee) == v1)
+  ensures [parents] forall w addr {par(w)} :: w != insertee ==> par(w) == old(par(w))
+  modifies n.childCount, n.firstChild, n.lastChild, bn(insertee).parent, bn(insertee).next, bn(insertee).prev, bn(lst(self)).next,
+     bn(par(insertee)).childCount, bn(par(insertee)).firstChild, bn(par(insertee)).lastChild, bn(prv(insertee)).next, bn(nxt(insertee)).prev,
+     bn(nxt(v1)).prev, bn(v1).next, bn(prv(nxt(v1))).next
+
+// ReplaceChild(self, v1, ins): ins takes the place of v1 (which becomes isolated); a foreign v1 means: append ins.
+func (*BaseNode).ReplaceChild
+  uses nodeModel
+  requires WF() && self != nil && base(self) == n && v1 != nil && insertee != nil && insertee != self && insertee != v1
+  updates klen(p) = (isChild(v1, self) ? rmLen(p, insertee) : apLen(p, self, insertee))
+  updates kid(p, i) = (isChild(v1, self) ? ((p == self && i == ibPos(v1, insertee)) ? insertee : rmKid(p, i, insertee)) : apKid(p, i, self, insertee))
+  updates kidx(w) = (isChild(v1, self) ? (w == insertee ? ibPos(v1, insertee) : rmIdx(w, insertee)) : apIdx(w, self, insertee))
+  bridge klen(p) = klen(p)
+  bridge kid(p, i) = kid(p, i)
+  bridge kidx(w) = ((old(isChild(v1, self)) && w == v1) ? old(ibPos(v1, insertee)) : kidx(w))
+  ensures WF()
+  ensures [parent] par(insertee) == self
+  ensures [replaced] old(par(v1)) == self ==> (par(v1) == nil && nxt(v1) == nil && prv(v1) == nil)
+  ensures [parents] forall w addr {par(w)} :: (w != insertee && w != v1) ==> par(w) == old(par(w))
+  modifies all(BaseNode.childCount), all(BaseNode.firstChild), all(BaseNode.lastChild), all(BaseNode.parent), all(BaseNode.next), all(BaseNode.prev)
+
 @*/
+
+/* Draft, NOT loaded by gvc (the loop invariant is not discharged yet, so no caller may rely on it):
+
+// RemoveChildren(self): every child becomes isolated; nothing else changes.
+func (*BaseNode).RemoveChildren
+  uses nodeModel
+  requires WF() && self != nil && base(self) == n
+  updates klen(p) = (p == self ? 0 : klen(p))
+  ensures WF()
+  ensures [isolated] forall w addr {par(w)} :: old(par(w)) == self ==> (par(w) == nil && nxt(w) == nil && prv(w) == nil)
+  ensures [others] forall w addr {par(w)} :: old(par(w)) != self ==> (par(w) == old(par(w)) && nxt(w) == old(nxt(w)) && prv(w) == old(prv(w)))
+  modifies n.childCount, n.firstChild, n.lastChild, all(BaseNode.parent), all(BaseNode.next), all(BaseNode.prev)
+  loop 0 inv c == nil || (old(par(c)) == self && 0 <= kidx(c) && kidx(c) < klen(self) && kid(self, kidx(c)) == c)
+  loop 0 inv forall i int {kid(self, i)} :: (0 <= i && i < klen(self) && (c == nil || i < kidx(c))) ==> (par(kid(self, i)) == nil && nxt(kid(self, i)) == nil && prv(kid(self, i)) == nil)
+  loop 0 inv forall i int {kid(self, i)} :: (0 <= i && i < klen(self) && c != nil && i >= kidx(c)) ==> (par(kid(self, i)) == self && nxt(kid(self, i)) == old(nxt(kid(self, i))) && prv(kid(self, i)) == (i == kidx(c) ? nil : old(prv(kid(self, i)))))
+  loop 0 inv forall w addr {par(w)} :: old(par(w)) != self ==> (par(w) == old(par(w)) && nxt(w) == old(nxt(w)) && prv(w) == old(prv(w)))
+  loop 0 inv n.childCount == old(n.childCount) && n.firstChild == old(n.firstChild) && n.lastChild == old(n.lastChild)
+*/
